@@ -13,7 +13,7 @@ import (
 	"github.com/centrifugal/centrifuge/verifx/kit"
 )
 
-var injections = []string{"none", "tick-unsubscribe", "tick-close", "tick-subscribe", "sub-close", "add-unsubscribe", "add-unsubscribe"}
+var injections = []string{"none", "tick-unsubscribe", "tick-close", "tick-subscribe", "sub-close", "add-unsubscribe", "add-unsubscribe", "add-resubscribe", "add-resubscribe"}
 
 // racingPresence wraps the node's presence manager: the first time connection 0's
 // presence tick refreshes its entry for a channel it is subscribed to, a server-side
@@ -25,6 +25,26 @@ type racingPresence struct {
 	e     *churn.Env
 	armed atomic.Bool
 	fired atomic.Bool
+	// resub: after the unsubscribe the connection subscribes to the channel again (server-side API,
+	// with presence) before the tick's refresh is forwarded. The new subscription's presence entry
+	// must survive whatever the tick does afterwards: it is looked up when the next refresh for the
+	// same subscription arrives (the next tick), provided nothing ended that subscription meanwhile.
+	resub      bool
+	watchCh    string
+	watchUnsub int
+	watching   atomic.Bool
+	lostEntry  atomic.Bool
+	lostDetail string
+}
+
+func (p *racingPresence) unsubCount(ch string) int {
+	n := 0
+	for _, cb := range p.e.Callbacks() {
+		if cb.Kind == "unsubscribe" && cb.Conn == 0 && cb.Channel == ch {
+			n++
+		}
+	}
+	return n
 }
 
 func (p *racingPresence) AddPresence(ch string, clientID string, info *centrifuge.ClientInfo) error {
@@ -41,7 +61,27 @@ func (p *racingPresence) AddPresence(ch string, clientID string, info *centrifug
 				return false
 			}, 200000)
 			if ok && !cc.Conn.Client.IsSubscribed(ch) {
-				p.fired.Store(true)
+				if !p.resub {
+					p.fired.Store(true)
+				} else if err := cc.Conn.Client.Subscribe(ch, centrifuge.WithEmitPresence(true), centrifuge.WithChannelInfo(info.ChanInfo)); err == nil && cc.Conn.Client.IsSubscribed(ch) {
+					p.fired.Store(true)
+					p.watchCh, p.watchUnsub = ch, p.unsubCount(ch)
+					defer p.watching.Store(true) // from the next call on
+				}
+			}
+		}
+	} else if p.e != nil && len(p.e.Conns) > 0 && p.watching.Load() && ch == p.watchCh {
+		cc := p.e.Conns[0]
+		if cc.Conn.Client.ID() == clientID && p.watching.CompareAndSwap(true, false) {
+			// the next refresh of the re-established subscription
+			if !cc.Closed() && cc.Conn.Client.IsSubscribed(ch) && p.unsubCount(ch) == p.watchUnsub {
+				if res, err := p.PresenceManager.Presence(ch); err == nil {
+					p.e.C.Count("resubscribed_entry_looked_up_at_next_refresh", 1)
+					if _, present := res[clientID]; !present {
+						p.lostDetail = fmt.Sprintf("conn 0 unsubscribed from %s and subscribed again while a presence tick's refresh for the old subscription was in flight; when the next refresh arrived the new subscription's presence entry was gone (nothing had ended that subscription)", ch)
+						p.lostEntry.Store(true)
+					}
+				}
 			}
 		}
 	}
@@ -89,14 +129,14 @@ func runCase(c *kit.Case) {
 		Conns: [2]int{2, 4}, Channels: [2]int{2, 3}, Positioned: false, Closes: true,
 		OpsPerConn: [2]int{3, 8}, Presence: true, PresenceInterval: time.Second, TickConcurrency: conc, Inject: inj, Users: 2,
 	}
-	if kind == "add-unsubscribe" {
+	if kind == "add-unsubscribe" || kind == "add-resubscribe" {
 		opts.CalmConn0 = true
 		opts.ExtraSetup = func(e *churn.Env, n *centrifuge.Node) {
 			inner, err := centrifuge.NewMemoryPresenceManager(n, centrifuge.MemoryPresenceManagerConfig{})
 			if err != nil {
 				panic(err)
 			}
-			rp = &racingPresence{PresenceManager: inner, e: e}
+			rp = &racingPresence{PresenceManager: inner, e: e, resub: kind == "add-resubscribe"}
 			n.SetPresenceManager(rp)
 		}
 	}
@@ -177,6 +217,9 @@ func runCase(c *kit.Case) {
 	if rp != nil && rp.fired.Load() {
 		c.Count("injected_"+kind, 1)
 	}
+	if rp != nil && rp.lostEntry.Load() {
+		c.Violation("c06-subscriber-missing-from-presence", rp.lostDetail, map[string]any{"plans": plans, "injection": kind, "tick_concurrency": conc})
+	}
 	ticks := 0
 	for _, cb := range e.Callbacks() {
 		if cb.Kind == "alive" {
@@ -199,11 +242,11 @@ func TestC06(t *testing.T) {
 	kit.Main(t, kit.Spec{
 		ID:     "C06",
 		Bubble: true,
-		Rule: "case index enumerates (racing operation x tick mode): {none, unsubscribe / close / server-side subscribe launched while a presence tick sits between its channel snapshot and its presence updates, close launched inside a client-side subscribe, an unsubscribe completing while a tick's presence refresh is in flight inside the presence manager} x {sequential tick, sequential, 4 concurrent presence updates}; around it a seeded churn (2-4 connections of 2 users, 2-3 channels, every subscription with presence, plans may end in disconnects, presence tick every virtual second). " +
+		Rule: "case index enumerates (racing operation x tick mode): {none, unsubscribe / close / server-side subscribe launched while a presence tick sits between its channel snapshot and its presence updates, close launched inside a client-side subscribe, an unsubscribe completing while a tick's presence refresh is in flight inside the presence manager, the same followed by a new subscription of the channel (its presence entry is looked up when the next refresh for it arrives)} x {sequential tick, sequential, 4 concurrent presence updates}; around it a seeded churn (2-4 connections of 2 users, 2-3 channels, every subscription with presence, plans may end in disconnects, presence tick every virtual second). " +
 			"At two settle points: Presence(ch) == exactly the connections holding a settled subscription, with their client id / user / connection info, and PresenceStats == (#entries, #distinct users) of that set. Signature = (race, mode, fired) x per-connection (closed, #channels).",
 		Assumptions:     []string{"memory presence manager (no Redis in this sandbox)", "presence TTL expiry is not involved: the memory presence manager keeps entries until removed"},
 		Cases:           map[string]int{"quick": 360, "thorough": 9600},
-		RequireCounters: []string{"presence_sets_checked", "present_entries_checked", "presence_ticks", "injected_tick-unsubscribe", "injected_tick-close", "injected_tick-subscribe", "injected_sub-close", "injected_add-unsubscribe"},
+		RequireCounters: []string{"presence_sets_checked", "present_entries_checked", "presence_ticks", "injected_tick-unsubscribe", "injected_tick-close", "injected_tick-subscribe", "injected_sub-close", "injected_add-unsubscribe", "injected_add-resubscribe", "resubscribed_entry_looked_up_at_next_refresh"},
 		Run:             runCase,
 	})
 }
